@@ -6,6 +6,7 @@ from typing import Any, List, Optional, Tuple
 from ..apps import AppHost, Instance
 from ..core import Tape
 from ..peers import ws as wsp
+from ..peers.h2 import S_INITIAL_WINDOW_SIZE
 from ..runner import Outcome, Violation, finish_outcome
 from ..wsgen import WSSession, app_ws_echo, build_ws_script, message_frames
 from ..world import World
@@ -112,14 +113,34 @@ def run(tape: Tape, params: dict) -> Outcome:
     ops: List[tuple] = []
     expect_ok: List[Tuple[str, Any]] = []
     too_big = False
-    for kind, value in msgs:
+    # HTTP/2 carrier: the client may shrink SETTINGS_INITIAL_WINDOW_SIZE in mid-session (the stream's send
+    # window can become negative, RFC 7540 6.9.2) and reopen it a little later
+    shrink_at = None
+    if case is None and carrier == "h2" and tape.chance(1, 4, "h2.shrink"):
+        shrink_at = tape.draw(len(msgs), "h2.shrink.at")
+        shrink_to = tape.choice([0, 10, 1000], "h2.shrink.to")
+
+        def shrink(sc: Any) -> None:
+            sc.conn.client.send(sess.peer.settings({S_INITIAL_WINDOW_SIZE: shrink_to}))
+            world.sim.fault("h2.settings_window_shrink")
+
+        def reopen(sc: Any) -> None:
+            if not sc.ended:
+                sc.conn.client.send(sess.peer.settings({S_INITIAL_WINDOW_SIZE: 65535}))
+    for mi, (kind, value) in enumerate(msgs):
         size = len(value)
+        if shrink_at == mi:
+            ops.append(("call", shrink))
+            ops.append(("sleep", 0.01))
         compress = offer_deflate and tape.chance(2, 3, "ws.compress")
 
         def frames(kind: str = kind, value: Any = value, compress: bool = compress) -> bytes:
             return message_frames(tape, sess, kind, value, compress=compress, pings=case is None)
 
         ops.append(("frames", frames))
+        if shrink_at == mi:
+            ops.append(("sleep", 0.05))
+            ops.append(("call", reopen))
         if not too_big:
             if size > limit:
                 too_big = True
